@@ -141,7 +141,14 @@ def _mn_factors(rng, n, edges, cards, dup_mode):
         fs.append(mk([rng.randrange(n)]))
     if rng.random() < 0.3 and fs:  # repeated scope, different values
         fs.append(mk(rng.choice(fs)["vars"]))
-    if dup_mode and fs:
+    if dup_mode == "object" and fs:
+        # THE SAME DiscreteFactor OBJECT added two or three times (shared "oid"); unary and pairwise preferred
+        small = [f for f in fs if len(f["vars"]) <= 2] or fs
+        for k, f in enumerate(rng.sample(small, min(len(small), rng.randint(1, 2)))):
+            f["oid"] = k + 1
+            for _ in range(rng.choice([1, 1, 2])):
+                fs.append({"vars": list(f["vars"]), "vals": [list(x) for x in f["vals"]], "oid": k + 1})
+    elif dup_mode and fs:
         for _ in range(rng.randint(1, 2)):
             f = rng.choice(fs)
             if dup_mode == "perm" and len(f["vars"]) >= 2:
@@ -220,7 +227,7 @@ def cases(tier, seed):
         shape = shapes[i % len(shapes)]
         n, edges = _graph(rng, shape, rng.randint(3, 7 if tier == "thorough" else 6))
         cards = [rng.choice([1, 2, 2, 2, 3]) for _ in range(n)]
-        dup = rng.choice([None, None, "exact", "perm"])
+        dup = rng.choice([None, None, "exact", "perm", "object"])
         fs = _mn_factors(rng, n, edges, cards, dup)
         malformed = None
         if rng.random() < 0.08:
@@ -254,13 +261,14 @@ def cases(tier, seed):
         rng.shuffle(nodes)
         out.append({"kind": "mn", "shape": shape, "n": n, "nodes": nodes, "edges": edges, "cards": cards,
                     "factors": fs, "dup": dup, "malformed": malformed, "orders": orders,
+                    "addmode": rng.choice(["once", "each"]),
                     "style": rng.choice(common.NAME_STYLES), "states": rng.choice(["default", "str"]),
                     "nameseed": rng.randint(0, 10**9)})
     for i in range(n2):
         shape = rng.choice(["cycle", "tree", "random", "chordal"])
         n, edges = _graph(rng, shape, rng.randint(3, 5))
         cards = [rng.choice([2, 2, 3]) for _ in range(n)]
-        fs = _mn_factors(rng, n, edges, cards, rng.choice([None, "exact"]))
+        fs = _mn_factors(rng, n, edges, cards, rng.choice([None, "exact", "object"]))
         out.append({"kind": "mn2fg", "shape": shape, "n": n, "nodes": list(range(n)), "edges": edges,
                     "cards": cards, "factors": fs, "style": "str", "states": "default",
                     "nameseed": rng.randint(0, 10**9)})
@@ -268,7 +276,7 @@ def cases(tier, seed):
         shape = rng.choice(["cycle", "tree", "random", "chordal", "complete"])
         n, edges = _graph(rng, shape, rng.randint(2, 6))
         cards = [rng.choice([1, 2, 2, 3]) for _ in range(n)]
-        dup = rng.choice([None, None, None, "exact", "perm"])
+        dup = rng.choice([None, None, None, "exact", "perm", "object"])
         fs = _mn_factors(rng, n, edges, cards, dup)
         out.append({"kind": "fg", "shape": shape, "n": n, "cards": cards, "factors": fs, "dup": dup,
                     "style": rng.choice(common.NAME_STYLES), "states": rng.choice(["default", "str"]),
@@ -316,6 +324,21 @@ def _mk_factor(case, names, f):
     if case["states"] == "str":
         return DiscreteFactor(vs, card, vals, state_names={names[v]: _state_names(case, v) for v in f["vars"]})
     return DiscreteFactor(vs, card, vals)
+
+
+def _mk_factors(case, names, flist):
+    """pgmpy factor objects for the case's factor list; entries sharing an "oid" are THE SAME object"""
+    by_oid, out = {}, []
+    for f in flist:
+        oid = f.get("oid")
+        if oid is not None and oid in by_oid:
+            out.append(by_oid[oid])
+            continue
+        phi = _mk_factor(case, names, f)
+        if oid is not None:
+            by_oid[oid] = phi
+        out.append(phi)
+    return out
 
 
 def _mfac(f):
@@ -402,8 +425,12 @@ def _build_mn(case, names, factors=None):
     mn = MarkovNetwork()
     mn.add_nodes_from([names[v] for v in case["nodes"]])
     mn.add_edges_from([(names[a], names[b]) for a, b in case["edges"]])
-    fs = [_mk_factor(case, names, f) for f in (case["factors"] if factors is None else factors)]
-    mn.add_factors(*fs)
+    fs = _mk_factors(case, names, case["factors"] if factors is None else factors)
+    if case.get("addmode") == "each":
+        for phi in fs:
+            mn.add_factors(phi)
+    else:
+        mn.add_factors(*fs)
     return mn, fs
 
 
@@ -755,7 +782,7 @@ def run_fg(case, drv):
     mfs = [_mfac(f) for f in case["factors"]]
     states = {v: _state_names(case, v) for v in range(n)}
     has_equal = _has_equal(case)
-    fs = [_mk_factor(case, names, f) for f in case["factors"]]
+    fs = _mk_factors(case, names, case["factors"])
     fg = FactorGraph()
     used = sorted({v for f in case["factors"] for v in f["vars"]})
     fg.add_nodes_from([names[v] for v in used])
